@@ -96,7 +96,18 @@ def gen_case(rng, stream, attrs):
     pool = ["time", "message", "a", "b", gen_str(rng, 1, 3, True), "z"]
     defaults = {rng.choice(pool): jv() for _ in range(rng.randint(0, 4))}
     data = {rng.choice(pool): jv() for _ in range(rng.randint(0, 4))}
-    return {"mode": "json", "defaults": defaults, "data": data, "msg": gen_str(rng, 1, 6, True, percent_ok=False),
+    extra = {}
+    # keys that are not text (json.dumps renders int / float / bool / None keys as text): per-slot
+    # reports like {0: 0.5, 1: 0.75}, at the top level and nested, beside text keys
+    if rng.random() < 0.3:
+        nk = lambda: rng.choice([0, 7, -3, 2.5, None, True])   # (no two of these are equal as dict keys)
+        if rng.random() < 0.6:
+            extra["xdata"] = [[nk(), jv()] for _ in range(rng.randint(1, 3))]
+        if rng.random() < 0.3:
+            extra["xdefaults"] = [[nk(), jv()] for _ in range(rng.randint(1, 2))]
+        if rng.random() < 0.5:
+            data[rng.choice(["a", "per_slot"])] = {"__pairs__": [[nk(), jv()], ["all", 1.0], [nk(), 2]]}
+    return {"mode": "json", "defaults": defaults, "data": data, **extra, "msg": gen_str(rng, 1, 6, True, percent_ok=False),
             "datefmt": rng.choice([None, "", "%Y", "%H:%M"]), "created": rng.randint(0, 2**31 - 1),
             # the same record may have passed through another handler's formatter before
             "pre": rng.choice([None, None, "line", "text", "json"])}
@@ -197,6 +208,45 @@ def rec_text_safe(rec):
     return rec
 
 
+def jkey(k):
+    """the text json.dumps writes for a key"""
+    if isinstance(k, str):
+        return k
+    if k is True:
+        return "true"
+    if k is False:
+        return "false"
+    if k is None:
+        return "null"
+    return repr(k)
+
+
+def jreal(v):
+    """the Python value a case describes ({"__pairs__": [[k, v], ...]} is a mapping with arbitrary keys)"""
+    if isinstance(v, dict):
+        if set(v) == {"__pairs__"}:
+            return {k: jreal(x) for k, x in v["__pairs__"]}
+        return {k: jreal(x) for k, x in v.items()}
+    if isinstance(v, list):
+        return [jreal(x) for x in v]
+    return v
+
+
+def jtext(v):
+    """the same value as a JSON parser returns it (keys are text; a later equal key wins)"""
+    if isinstance(v, dict):
+        return {jkey(k): jtext(x) for k, x in v.items()}
+    if isinstance(v, list):
+        return [jtext(x) for x in v]
+    return v
+
+
+def jlayer(case, which):
+    d = {k: jreal(v) for k, v in case[which].items()}
+    d.update({k: jreal(v) for k, v in case.get("x" + which, [])})
+    return d
+
+
 def impl(case, attrs=None):
     from cobald.monitor.format_line import line_protocol, LineProtocolFormatter
     from cobald.monitor.format_json import JsonFormatter
@@ -216,8 +266,8 @@ def impl(case, attrs=None):
             rec.created = float(case["created"])
             out = fm.format(rec)
         else:
-            fm = JsonFormatter(dict(case["defaults"]), datefmt=case["datefmt"])
-            rec = logging.LogRecord("n", logging.INFO, "p", 1, case["msg"], (dict(case["data"]),), None)
+            fm = JsonFormatter(jlayer(case, "defaults"), datefmt=case["datefmt"])
+            rec = logging.LogRecord("n", logging.INFO, "p", 1, case["msg"], (jlayer(case, "data"),), None)
             rec.created = float(case["created"])
             try:
                 # (whether that other formatter likes the record is its own business)
@@ -253,11 +303,11 @@ def line(case, o):
         return {"mode": "fmt", "name": case["name"], "defaults": fmt_defaults(case), "whitelist": case["whitelist"],
                 "attrs": ATTRS, "args": [[k, wireval(v)] for k, v in case["args"]], "created": "%d/1" % case["created"],
                 **({"res": str(case["res"])} if case["res"] is not None else {})}
-    layers = [[[k, json.dumps(v, sort_keys=True)] for k, v in case["defaults"].items()]]
+    layers = [[[k, json.dumps(v, sort_keys=True)] for k, v in jtext(jlayer(case, "defaults")).items()]]
     if case["datefmt"] is None or case["datefmt"]:
         layers.append([["time", json.dumps(o.get("time"))]])
     layers.append([["message", json.dumps(case["msg"])]])
-    layers.append([[k, json.dumps(v, sort_keys=True)] for k, v in case["data"].items()])
+    layers.append([[k, json.dumps(v, sort_keys=True)] for k, v in jtext(jlayer(case, "data")).items()])
     return {"mode": "json", "layers": layers}
 
 
@@ -303,11 +353,11 @@ def oracle(case, o):
             got = json.loads(o["out"])
         except ValueError:
             return [("json-invalid", "output is not JSON: %r" % o["out"][:80])]
-        exp = dict(case["defaults"])
+        exp = jtext(jlayer(case, "defaults"))
         if case["datefmt"] is None or case["datefmt"]:
             exp["time"] = o["time"]
         exp["message"] = case["msg"]
-        exp.update(case["data"])
+        exp.update(jtext(jlayer(case, "data")))
         if got != exp or "\n" in o["out"]:
             out.append(("json-merge", "JSON output %r differs from defaults<time<message<data = %r" % (got, exp)))
         return out
